@@ -148,7 +148,19 @@ void density_sketch<T, K, A>::compact_level(unsigned height) {
 #else
   bits[0] = random_utils::random_bit();
 #endif
+#ifdef DATASKETCHES_VERIF
+  if (random_utils::verif_source != nullptr) {
+    // Fisher-Yates driven by the installed source, so that the permutation does not depend on libstdc++
+    for (size_t i = level.size(); i > 1; --i) {
+      const size_t j = static_cast<size_t>(random_utils::verif_next_below(i));
+      std::swap(level[i - 1], level[j]);
+    }
+  } else {
+    std::shuffle(level.begin(), level.end(), random_utils::rand);
+  }
+#else
   std::shuffle(level.begin(), level.end(), random_utils::rand);
+#endif
   for (unsigned i = 1; i < level.size(); ++i) {
     T delta = 0;
     for (unsigned j = 0; j < i; ++j) {
